@@ -152,7 +152,10 @@ def _guard_variants(mod, ix):
             out.append((name, rel, '\0missing', '', None))
             continue
         lines = src.split('\n')
-        hits = [i for i, l in enumerate(lines) if l.strip().startswith(prefix)]
+        if prefix.endswith('$'):
+            hits = [i for i, l in enumerate(lines) if l.strip() == prefix[:-1]]
+        else:
+            hits = [i for i, l in enumerate(lines) if l.strip().startswith(prefix)]
         if which is not None and which < len(hits):
             hits = [hits[which]]
             name += '#%d' % which
